@@ -1369,27 +1369,36 @@ impl<'a, SE: extensions::ShellExtensions> WordExpander<'a, SE> {
                 // referencing the last element.
                 if expanded_offset < 0 {
                     expanded_offset += expanded_parameter_len;
-
-                    // If the offset is still negative, then we need to yield an empty slice.
-                    // We force the offset to the end of the array.
-                    if expanded_offset < 0 {
-                        expanded_offset = expanded_parameter_len;
-                    }
                 }
 
-                // Make sure the offset is within the bounds of the item.
-                let expanded_offset = min(expanded_offset, expanded_parameter_len);
+                // If the offset is still negative, or lies beyond the end of the item, then
+                // we yield an empty slice (without looking at the length).
+                let offset_out_of_range =
+                    expanded_offset < 0 || expanded_offset > expanded_parameter_len;
 
-                let end_offset = if let Some(length) = length {
-                    let mut expanded_length = length.eval(self.shell, self.params, false).await?;
+                let end_offset = if offset_out_of_range {
+                    expanded_offset = expanded_parameter_len;
+                    expanded_parameter_len
+                } else if let Some(length) = length {
+                    let expanded_length = length.eval(self.shell, self.params, false).await?;
+
                     if expanded_length < 0 {
-                        expanded_length += expanded_parameter_len;
+                        // A negative length is an offset from the end of the value marking
+                        // the end of the substring; it's only valid for strings, and must
+                        // not land before the start of the substring.
+                        let end_offset = expanded_parameter_len + expanded_length;
+                        if expanded_parameter.from_array || end_offset < expanded_offset {
+                            return Err(error::ErrorKind::CheckedExpansionError(std::format!(
+                                "{expanded_length}: substring expression < 0"
+                            ))
+                            .into());
+                        }
+
+                        end_offset
+                    } else {
+                        expanded_offset
+                            + min(expanded_length, expanded_parameter_len - expanded_offset)
                     }
-
-                    let expanded_length =
-                        min(expanded_length, expanded_parameter_len - expanded_offset);
-
-                    expanded_offset + expanded_length
                 } else {
                     expanded_parameter_len
                 };
